@@ -742,57 +742,83 @@ func checkContainer(c *Ctx, rule string) {
 	}
 	seen := map[string]bool{}
 	okTable, okNum := true, true
-	var walkIf func(s *ast.IfStmt)
-	walkIf = func(s *ast.IfStmt) {
-		mime := ""
-		if call, ok := unparen(s.Cond).(*ast.CallExpr); ok && len(call.Args) == 2 {
-			if v, ok := constString(info, call.Args[1]); ok {
-				mime = v
-			}
-		}
-		if mime != "" {
-			ast.Inspect(s.Body, func(n ast.Node) bool {
-				cl, ok := n.(*ast.CompositeLit)
-				if !ok || !strings.HasSuffix(types.ExprString(cl.Type), "TrackEntry") {
-					return true
-				}
-				var codec, typ, num string
-				for _, e := range cl.Elts {
-					kv, ok := e.(*ast.KeyValueExpr)
-					if !ok {
-						continue
-					}
-					switch types.ExprString(kv.Key) {
-					case "CodecID":
-						codec, _ = constString(info, kv.Value)
-					case "TrackType":
-						if tv := info.Types[kv.Value]; tv.Value != nil {
-							typ = tv.Value.String()
-						}
-					case "TrackNumber":
-						num = types.ExprString(kv.Value)
-					}
-				}
-				seen[mime] = true
-				if w, ok := want[mime]; !ok || w[0] != codec || w[1] != typ {
-					okTable = false
-				}
-				if num != "uint64(i + 1)" {
-					okNum = false
-				}
-				return true
-			})
-		}
-		if e, ok := s.Else.(*ast.IfStmt); ok {
-			walkIf(e)
-		}
-	}
+	ffw := p.Facts().Analyze(iw)
+	// the position of the track in the description list: the key of the loop over conn.tracks
+	var posKey types.Object
 	ast.Inspect(iw.Body(), func(n ast.Node) bool {
-		if s, ok := n.(*ast.IfStmt); ok {
-			if call, ok := unparen(s.Cond).(*ast.CallExpr); ok && strings.HasSuffix(types.ExprString(call.Fun), "EqualFold") {
-				walkIf(s)
-				return false
+		if rs, ok := n.(*ast.RangeStmt); ok && strings.HasSuffix(types.ExprString(rs.X), ".tracks") {
+			if id, ok := rs.Key.(*ast.Ident); ok && id.Name != "_" && posKey == nil {
+				posKey = info.ObjectOf(id)
 			}
+		}
+		return true
+	})
+	// numberOK: the expression is uint64(i + 1), as written or through a local that holds it
+	numberOK := func(at ast.Node, e ast.Expr) bool {
+		if posKey == nil {
+			return false
+		}
+		want := &Term{K: 'o', Name: "conv:uint64", Args: []*Term{{K: 'o', Name: "+", Args: []*Term{TVar(posKey), TConst("1")}}}}
+		t := ffw.term(e)
+		if t == nil {
+			return false
+		}
+		if t.String() == want.String() {
+			return true
+		}
+		st, _ := ffw.At(at)
+		return st != nil && st.EqualUnder(t, want)
+	}
+	// every track entry that names a codec is built where the track's MIME type
+	// compared equal (EqualFold) to the MIME type that codec id belongs to
+	ast.Inspect(iw.Body(), func(n ast.Node) bool {
+		cl, ok := n.(*ast.CompositeLit)
+		if !ok || !strings.HasSuffix(types.ExprString(cl.Type), "TrackEntry") || len(cl.Elts) == 0 {
+			return true
+		}
+		var codec, typ string
+		var numE ast.Expr
+		for _, e := range cl.Elts {
+			kv, ok := e.(*ast.KeyValueExpr)
+			if !ok {
+				continue
+			}
+			switch types.ExprString(kv.Key) {
+			case "CodecID":
+				codec, _ = constString(info, kv.Value)
+			case "TrackType":
+				if tv := info.Types[kv.Value]; tv.Value != nil {
+					typ = tv.Value.String()
+				}
+			case "TrackNumber":
+				numE = kv.Value
+			}
+		}
+		st, _ := ffw.At(cl)
+		mime := ""
+		if st != nil {
+			for _, f := range st.Facts() {
+				if f.Op == "true" && f.Pos && f.A.K == 'k' && f.A.Name == "strings.EqualFold" && len(f.A.Args) == 2 && f.A.Args[1].K == 'c' {
+					m := strings.Trim(f.A.Args[1].Name, "\"")
+					if _, known := want[m]; known {
+						if mime != "" && mime != m {
+							okTable = false // two different codecs at once: not understood
+						}
+						mime = m
+					}
+				}
+			}
+		}
+		if mime == "" {
+			okTable = false
+			return true
+		}
+		seen[mime] = true
+		if w := want[mime]; w[0] != codec || w[1] != typ {
+			okTable = false
+		}
+		if numE == nil || !numberOK(cl, numE) {
+			okNum = false
 		}
 		return true
 	})
@@ -805,7 +831,7 @@ func checkContainer(c *Ctx, rule string) {
 			return true
 		}
 		for _, e := range cl.Elts {
-			if kv, ok := e.(*ast.KeyValueExpr); ok && types.ExprString(kv.Key) == "TrackNumber" && types.ExprString(kv.Value) == "uint64(i + 1)" {
+			if kv, ok := e.(*ast.KeyValueExpr); ok && types.ExprString(kv.Key) == "TrackNumber" && numberOK(cl, kv.Value) {
 				okDesc = true
 			}
 		}
